@@ -58,22 +58,38 @@ def _msg_classes():
 
 
 def _make_resource(r, idx, kind, classes, calls):
-    """build a resource class with 1..4 handlers; annotation style per handler"""
+    """build a resource class with 1..4 handlers; annotation style per handler; a handler is an instance method, a classmethod,
+    or the bound method of a component object that the resource exposes as an attribute (self.on_x = self.part.on_x)"""
     from mpgameserver import dispatch as D
     ns = {}
     handled = []
+    tok = [None]                 # identity of the resource as the call log knows it
     k = r.randint(1, min(4, len(classes)))
     chosen = r.sample(classes, k)
+    component_ns, component_names = {}, []
     for j, cls in enumerate(chosen):
         style = r.choice(["class", "string"])
         mname = "%s_%d_%s" % (r.choice(["a", "m", "z", "on", "handle"]), j, cls.__name__.lower())
         ann = cls if style == "class" else cls.__name__
-        h = _handler(kind, mname, ann, calls)
-        ns[mname] = h
+        h = _handler(kind, mname, ann, calls, tok)
+        how = r.choice(["instance", "instance", "instance", "classmethod", "component"])
+        if how == "classmethod":
+            ns[mname] = classmethod(h)
+        elif how == "component":
+            component_ns[mname] = h
+            component_names.append(mname)
+        else:
+            ns[mname] = h
         handled.append((cls.__name__, mname, style))
     ns["helper"] = lambda self: None           # an undecorated method must be ignored
     R = type("Res%d" % idx, (object,), ns)
     inst = R()
+    if component_names:
+        Part = type("Part%d" % idx, (object,), component_ns)
+        inst._part = Part()
+        for mname in component_names:
+            setattr(inst, mname, getattr(inst._part, mname))
+    tok[0] = id(inst)
     inst._handled = sorted(handled, key=lambda t: t[1])   # dir() order = registration order
     inst._idx = idx
     return inst
@@ -83,11 +99,11 @@ UNKNOWN = "?"
 RAISE = [None]               # the exception object the next invoked handler raises (after recording the call)
 
 
-def _handler(kind, mname, ann, calls):
+def _handler(kind, mname, ann, calls, tok):
     from mpgameserver import dispatch as D
     if kind == "server":
         def h(self, client, seqnum, msg):
-            calls.append((id(self), mname, (client, seqnum, msg)))
+            calls.append((tok[0], mname, (client, seqnum, msg)))
             if RAISE[0] is not None:
                 raise RAISE[0]
         h.__annotations__ = {"msg": ann}
@@ -95,7 +111,7 @@ def _handler(kind, mname, ann, calls):
         return D.server_event(h)
 
     def h(self, seqnum, msg):
-        calls.append((id(self), mname, (seqnum, msg)))
+        calls.append((tok[0], mname, (seqnum, msg)))
         if RAISE[0] is not None:
             raise RAISE[0]
     h.__annotations__ = {"msg": ann}
